@@ -186,7 +186,9 @@ Definition minmax_args (rc ic data : list Z) (rsize fill : Z) (maxm : bool) : li
           let md := map (fun t => snd (snd t)) m in
           if existsb (fun d => better maxm d fill) md || (zlen md =? rsize)
           then znth mrc (np_argbest maxm md)                       (* best value is a stored value *)
-          else first_gap (np_sort mrc) (-1) 0)                     (* best value is the fill value *)
+          else                                                     (* best value is the fill value; a stored
+                                                                      value equal to it counts as a fill value *)
+            first_gap (np_sort (map fst (filter (fun p => negb (snd p =? fill)) (combine mrc md)))) (-1) 0)
        ri).
 
 (* ------------------------------------------------------------------ _arg_minmax_common *)
@@ -240,7 +242,7 @@ Definition ss_argminmax (maxm : bool) (x0 : coo Z) (axis0 : option Z) (keepdims 
 
 Definition ss_unique_values (x : coo Z) : list Z :=
   let values := np_unique (c_data x) in
-  if zlen (c_coords x) <? size (c_shape x) then np_sort (c_fill x :: values) else values.
+  if zlen (c_coords x) <? size (c_shape x) then np_unique (c_fill x :: values) else values.
 
 (* l[idxs]  (NumPy fancy indexing with an index array) *)
 Definition gather (idxs l : list Z) : list Z := map (fun i => nth (Z.to_nat i) l 0) idxs.
@@ -249,7 +251,10 @@ Definition ss_unique_counts (x : coo Z) : list Z * list Z :=
   let '(values, counts) := np_unique_counts (c_data x) in
   let nnz := zlen (c_coords x) in
   let sz := size (c_shape x) in
-  if nnz <? sz then
+  if (nnz <? sz) && existsb (Z.eqb (c_fill x)) values then
+    (* counts[values == x.fill_value] += x.size - x.nnz *)
+    (values, map (fun vc => if fst vc =? c_fill x then snd vc + (sz - nnz) else snd vc) (combine values counts))
+  else if nnz <? sz then
     let values1 := c_fill x :: values in
     let counts1 := (sz - nnz) :: counts in
     let sorted_indices := np_argsort values1 in
@@ -259,19 +264,23 @@ Definition ss_unique_counts (x : coo Z) : list Z * list Z :=
 
 (* ------------------------------------------------------------------ nonzero / argwhere / where(cond) *)
 
-(* COO.nonzero: check_zero_fill_value, ndim = 0 rejected, then tuple(self.coords) *)
+(* self.coords[:, self.data != 0] *)
+Definition nz_coords (x : coo Z) : list idx :=
+  map fst (filter (fun e => negb (snd e =? 0)) (combine (c_coords x) (c_data x))).
+
+(* COO.nonzero: check_zero_fill_value, ndim = 0 rejected, then tuple(self.coords[:, self.data != 0]) *)
 Definition ss_nonzero (x : coo Z) : res (list (list Z)) :=
   if negb (c_fill x =? 0) then Raise ValueError
   else if ndimZ x =? 0 then Raise ValueError
-  else Ok (columns (length (c_shape x)) (c_coords x)).
+  else Ok (columns (length (c_shape x)) (nz_coords x)).
 
-(* argwhere(a) = np.transpose(a.nonzero()): the stored index tuples *)
+(* argwhere(a) = np.transpose(a.nonzero()): the index tuples of the stored non-zero values *)
 Definition ss_argwhere (x : coo Z) : res (list idx) :=
   if negb (c_fill x =? 0) then Raise ValueError
   else if ndimZ x =? 0 then Raise ValueError
-  else Ok (c_coords x).
+  else Ok (nz_coords x).
 
-(* where(condition): check_zero_fill_value, asCOO, tuple(condition.coords) *)
+(* where(condition): check_zero_fill_value, asCOO, tuple(condition.coords[:, condition.data != 0]) *)
 Definition ss_where1 (x : coo Z) : res (list (list Z)) :=
   if negb (c_fill x =? 0) then Raise ValueError
-  else Ok (columns (length (c_shape x)) (c_coords x)).
+  else Ok (columns (length (c_shape x)) (nz_coords x)).
